@@ -213,7 +213,12 @@ impl<'a> ExecutorBuilder<'a> {
                                                     ) => agg_col
                                                         .column
                                                         .eq_ignore_ascii_case(arg_col.column),
-                                                    (None, _) | (Some(Expr::Literal(_)), _) => true,
+                                                    // COUNT(*) / COUNT(1) only stand for a call that has no column argument
+                                                    // either: COUNT(col) must not be answered from the COUNT(*) slot
+                                                    (None, None)
+                                                    | (None, Some(Expr::Literal(_)))
+                                                    | (Some(Expr::Literal(_)), None)
+                                                    | (Some(Expr::Literal(_)), Some(Expr::Literal(_))) => true,
                                                     _ => false,
                                                 };
                                                 if args_match {
@@ -437,8 +442,21 @@ impl<'a> ExecutorBuilder<'a> {
                             .unwrap_or(0);
                         match agg_expr.function {
                             crate::sql::planner::AggregateFunction::Count => {
-                                AggregateFunction::Count {
-                                    distinct: agg_expr.distinct,
+                                let counted_column = agg_expr.argument.and_then(|arg| {
+                                    if let crate::sql::ast::Expr::Column(col) = arg {
+                                        resolve_column_index(col, column_map)
+                                    } else {
+                                        None
+                                    }
+                                });
+                                match counted_column {
+                                    Some(column) => AggregateFunction::CountColumn {
+                                        column,
+                                        distinct: agg_expr.distinct,
+                                    },
+                                    None => AggregateFunction::Count {
+                                        distinct: agg_expr.distinct,
+                                    },
                                 }
                             }
                             crate::sql::planner::AggregateFunction::Sum => {
@@ -515,8 +533,21 @@ impl<'a> ExecutorBuilder<'a> {
                             .unwrap_or(0);
                         match agg_expr.function {
                             crate::sql::planner::AggregateFunction::Count => {
-                                AggregateFunction::Count {
-                                    distinct: agg_expr.distinct,
+                                let counted_column = agg_expr.argument.and_then(|arg| {
+                                    if let crate::sql::ast::Expr::Column(col) = arg {
+                                        resolve_column_index(col, column_map)
+                                    } else {
+                                        None
+                                    }
+                                });
+                                match counted_column {
+                                    Some(column) => AggregateFunction::CountColumn {
+                                        column,
+                                        distinct: agg_expr.distinct,
+                                    },
+                                    None => AggregateFunction::Count {
+                                        distinct: agg_expr.distinct,
+                                    },
                                 }
                             }
                             crate::sql::planner::AggregateFunction::Sum => {
